@@ -80,7 +80,7 @@ claim("C20", f"{BND} over generated structure definitions x seeds x tree classes
       "Whole-tree conformance is decided by the bounded tier; randomness is assumed.", NOTE + "; random, float/date arithmetic assumed", "§5 C20")
 
 # properties whose check is wired up (native module present and triaged)
-READY = {"C01", "C02", "C03", "C04", "C05", "C06", "C07", "C08", "C09", "C10", "C11", "C12", "C13", "C14", "C15", "C16", "C17", "C18"}
+READY = {"C01", "C02", "C03", "C04", "C05", "C06", "C07", "C08", "C09", "C10", "C11", "C12", "C13", "C14", "C15", "C16", "C17", "C18", "C19", "C20"}
 
 ORDER = [f"C{i:02d}" for i in range(1, 21)]
 
